@@ -4,6 +4,7 @@ import (
 	"bufio"
 	"fmt"
 	"io"
+	"os"
 	"os/exec"
 	"strconv"
 	"strings"
@@ -37,6 +38,8 @@ type Solver struct {
 	dead      bool
 	Log       io.Writer
 }
+
+var slowLog = os.Getenv("GOSYM_SLOW") != ""
 
 func solverArgv(kind string, timeoutMs int) []string {
 	switch kind {
@@ -77,6 +80,10 @@ func (s *Solver) start() error {
 	}
 	s.in = in
 	s.out = bufio.NewReaderSize(out, 1<<16)
+	if d := os.Getenv("GOSYM_SMTLOG"); d != "" {
+		f, _ := os.CreateTemp(d, s.Kind+"-*.smt2")
+		s.Log = f
+	}
 	s.emitted = map[int]bool{}
 	s.declared = nil
 	s.depth = 0
@@ -199,12 +206,25 @@ func (s *Solver) readLine() (string, error) {
 }
 
 // Check runs (check-sat) on the current assertion stack.
-func (s *Solver) Check() SatResult {
+func (s *Solver) Check() (res SatResult) {
 	s.buf.WriteString("(check-sat)\n")
+	pending := ""
+	if slowLog {
+		pending = s.buf.String()
+	}
 	s.flush()
 	s.Queries++
 	t0 := time.Now()
-	defer func() { s.SolveTime += time.Since(t0) }()
+	defer func() {
+		d := time.Since(t0)
+		s.SolveTime += d
+		if slowLog && d > 300*time.Millisecond {
+			if len(pending) > 1500 {
+				pending = pending[:700] + "\n...\n" + pending[len(pending)-700:]
+			}
+			fmt.Fprintf(os.Stderr, "[slow query %v %s -> %v depth=%d]\n%s\n", d, s.Kind, res, s.depth, pending)
+		}
+	}()
 	for {
 		l, err := s.readLine()
 		if err != nil {
